@@ -639,3 +639,89 @@ Definition apply (fx : fixes) (o : op) (t : text) : res text :=
 Definition step (fx : fixes) (t : text) (o : op) : text :=
   match apply fx o t with Ok t' => t' | _ => t end.
 Definition run (fx : fixes) (ops : list op) (t : text) : text := fold_left (step fx) ops t.
+
+(* ---------- a store of named Text values (object identity) ----------
+   Histories over several live values: `y := x.op(...)` for the operations that RETURN a Text built
+   from the receiver's parts, `x.op(...)` for the in-place ones, operations taking other stored
+   Texts as arguments, and `Lines` results kept whole.  In this functional model values are
+   independent by construction; whether the implementation's objects are (no shared span list,
+   no shared fragment list) is what the multi-object correspondence observes: EVERY live value
+   is compared after EVERY step. *)
+Definition inplace (o : op) : bool :=
+  match o with
+  | OAssemble _ _ | OJoinLine _ _ _ | OJoinSep _ | OSplit _ _ _ _ | ODivide _ _ | OIndex _ | OSlice _ _
+  | OCopy | OBlankCopy => false
+  | _ => true
+  end.
+
+Inductive sop :=
+| SApply (y x : nat) (o : op)             (* in place: x.op(...) (y = x);  otherwise  y := x.op(...) *)
+| SLines (x : nat) (o : op)               (* every line of x.split(...) / x.divide(...) becomes a new slot *)
+| SAppendText (x z : nat)                 (* x.append(z) *)
+| SAppendTextFast (x z : nat)             (* x.append_text(z) *)
+| SCopyStyles (x z : nat)                 (* x.copy_styles(z) *)
+| SJoin (y sep : nat) (lines : list nat)  (* y := sep.join([lines...]) *)
+| SAssemble (y : nat) (b : Z) (parts : list nat).   (* y := Text.assemble of the stored parts, style=b *)
+
+Fixpoint sset {A} (st : list A) (i : nat) (v : A) : list A :=   (* i = length st: a new slot *)
+  match st, i with
+  | [], _ => [v]
+  | _ :: r, O => v :: r
+  | x :: r, S k => x :: sset r k v
+  end.
+Fixpoint sgets {A} (st : list A) (idx : list nat) : option (list A) :=
+  match idx with
+  | [] => Some []
+  | i :: r => match nth_error st i, sgets st r with
+              | Some v, Some vs => Some (v :: vs)
+              | _, _ => None
+              end
+  end.
+
+Definition sapply (fx : fixes) (s : sop) (st : list text) : res (list text) :=
+  match s with
+  | SApply y x o =>
+      match nth_error st x with
+      | None => Crash K_IndexError
+      | Some t => if inplace o && negb (Nat.eqb y x) then Crash K_Other
+                  else do t' <- apply fx o t; Ok (sset st y t')
+      end
+  | SLines x o =>
+      match nth_error st x with
+      | None => Crash K_IndexError
+      | Some t =>
+          match o with
+          | OSplit sep incl allow _ => do ls <- split fx t sep incl allow; Ok (st ++ ls)
+          | ODivide offs _ => Ok (st ++ divide fx t offs)
+          | _ => Crash K_Other
+          end
+      end
+  | SAppendText x z =>
+      match nth_error st x, nth_error st z with
+      | Some t, Some o => if Nat.eqb x z then Crash K_Other else do t' <- append_text_obj t o; Ok (sset st x t')
+      | _, _ => Crash K_IndexError
+      end
+  | SAppendTextFast x z =>
+      match nth_error st x, nth_error st z with
+      | Some t, Some o => if Nat.eqb x z then Crash K_Other else do t' <- append_text t o; Ok (sset st x t')
+      | _, _ => Crash K_IndexError
+      end
+  | SCopyStyles x z =>
+      match nth_error st x, nth_error st z with
+      | Some t, Some o => if Nat.eqb x z then Crash K_Other else Ok (sset st x (copy_styles t o))
+      | _, _ => Crash K_IndexError
+      end
+  | SJoin y sep lines =>
+      match nth_error st sep, sgets st lines with
+      | Some s, Some ls => do r <- join fx s ls; Ok (sset st y r)
+      | _, _ => Crash K_IndexError
+      end
+  | SAssemble y b parts =>
+      match sgets st parts with
+      | Some ps => do r <- assemble fx (default_meta b) (map PText ps); Ok (sset st y r)
+      | None => Crash K_IndexError
+      end
+  end.
+Definition sstep (fx : fixes) (st : list text) (s : sop) : list text :=
+  match sapply fx s st with Ok st' => st' | _ => st end.
+Definition srun (fx : fixes) (sops : list sop) (st : list text) : list text := fold_left (sstep fx) sops st.
